@@ -274,6 +274,12 @@ func build(tier string) []*vexp.Scenario {
 	for _, t := range [][][]string{{{"U1B", "X1", "PA"}}, {{"U1B", "X1"}, {"PA"}}, {{"U1B"}, {"X1", "PA", "PB"}}, {{"U1B", "U1B", "X1"}, {"PA"}}} {
 		out = append(out, scenario(t, []string{"S1A", "S2B"}, b2))
 	}
+	// a Subscribe racing the departure (UnsubscribeAll) of the last other subscriber of the same type
+	for _, pre := range [][]string{{"S2A"}, {"S2A", "S2B"}} {
+		for _, t := range [][][]string{{{"S1A", "PA"}, {"X2"}}, {{"S1A"}, {"X2", "PA"}}, {{"S1A", "PA"}, {"X2", "PA"}}} {
+			out = append(out, scenario(t, pre, b2))
+		}
+	}
 	three := [][][]string{
 		{{"S1A"}, {"S2A"}, {"PA"}}, {{"S1A"}, {"U1A"}, {"PA"}}, {{"S1A", "S1B"}, {"X1"}, {"PB"}}, {{"PA"}, {"PA"}, {"S1A"}},
 	}
